@@ -679,7 +679,10 @@ func rpAnalyse(root *pkgSrc, fd *ast.FuncDecl, file string) rpRecord {
 						case strings.Contains(s, "context.Background()") || strings.Contains(s, "context.TODO()"):
 							r.ctx = "background"
 						case strings.Contains(s, recv+".getSSEConn.ctx") || strings.Contains(s, recv+".sseConn.ctx"):
-							r.ctx = "handshake"
+							r.ctx = "unknown"
+							if rpStreamCtxKept(root, rpStreamField(s, recv), fd.Name.Name) {
+								r.ctx = "handshake"
+							}
 						default:
 							// one level of indirection: ctx derived from a local that is initialised from the stream's context
 							// (`parent := t.getSSEConn.ctx; if parent == nil { parent = context.Background() }` — the fallback only
@@ -687,11 +690,13 @@ func rpAnalyse(root *pkgSrc, fd *ast.FuncDecl, file string) rpRecord {
 							ast.Inspect(def, func(n ast.Node) bool {
 								if id2, ok := n.(*ast.Ident); ok && id2.Name != id.Name {
 									stream, other := false, false
+									streamField := ""
 									for _, d2 := range rpAllDefs(fd, id2.Name) {
 										s2 := rpSquash(root.text(d2))
 										switch {
 										case strings.Contains(s2, recv+".getSSEConn.ctx") || strings.Contains(s2, recv+".sseConn.ctx"):
 											stream = true
+											streamField = rpStreamField(s2, recv)
 										case s2 == "context.Background()":
 											// nil fallback
 										default:
@@ -699,7 +704,10 @@ func rpAnalyse(root *pkgSrc, fd *ast.FuncDecl, file string) rpRecord {
 										}
 									}
 									if stream && !other {
-										r.ctx = "handshake"
+										r.ctx = "unknown"
+										if rpStreamCtxKept(root, streamField, fd.Name.Name) {
+											r.ctx = "handshake"
+										}
 									}
 								}
 								return true
@@ -788,6 +796,301 @@ func genReqPaths(root *pkgSrc) {
 		}
 		fmt.Fprintf(&b, "%s /- %s -/", leanText(s), s)
 	}
+	b.WriteString("]\n")
+	of := rpOptionFacts(root)
+	b.WriteString("/-- `WithHTTPHeaders` given several times: does `c.transportConfig.httpHeaders` get merged into per key (legacy SSE reads it), and does the replayed transport option merge per key (Streamable). -/\n")
+	fmt.Fprintf(&b, "def optFacts : OptFacts := { cfgMerges := %s, optMerges := %s }\n", leanBool(of.cfgMerges), leanBool(of.optMerges))
+	b.WriteString("/-- Both transports start from the configuration's header map; the legacy client's configuration is `extractTransportConfig(options)`: the options applied in the order given; `NewClient` applies the options in order and replays the transport options. -/\n")
+	fmt.Fprintf(&b, "def headersFromConfig : Bool := %s\n", leanBool(of.fromConfig))
+	b.WriteString("/-- Options that are plain assignments (given several times, the last one is in force): (option, verdict). -/\n")
+	b.WriteString("def lastWinsOptions : List (Mcp.Str.Text × Mcp.Str.Text) := [")
+	for i, l := range of.lastWins {
+		if i > 0 {
+			b.WriteString(", ")
+		}
+		fmt.Fprintf(&b, "(%s, %s) /- %s: %s -/", leanText(l[0]), leanText(l[1]), l[0], strings.ReplaceAll(l[1], "-/", "- /"))
+	}
 	b.WriteString("]\nend Mcp.Gen.ReqPaths\n")
 	writeIfChanged("ReqPaths.lean", b.String())
+}
+
+// ---- the stream context the answers inherit is kept for as long as answers can be built
+//
+// sendResponseToServer / sendResponseMessage read the listening stream's context from a field and fall back to
+// context.Background() when it is nil. That is "the handshake's context" only if (1) nothing ever clears the field
+// (no assignment of nil to it anywhere in the package) and every other assignment stores a context derived from a
+// parameter, and (2) the answer is built synchronously on the stream's reader goroutine: no function on the call
+// chain from the stream's read loop down to the answer sender is started with `go` (a detached answer can outlive
+// the stream and whatever the stream's goroutine does on exit).
+func rpStreamCtxKept(root *pkgSrc, field string, sender string) bool {
+	// (1) assignments to <x>.<field>.ctx
+	okAssign, n := true, 0
+	for _, fn := range root.sortedFiles() {
+		ast.Inspect(root.files[fn], func(x ast.Node) bool {
+			as, ok := x.(*ast.AssignStmt)
+			if !ok {
+				return true
+			}
+			for i, l := range as.Lhs {
+				ls := rpSquash(root.text(l))
+				if !strings.HasSuffix(ls, "."+field+".ctx") {
+					continue
+				}
+				n++
+				if len(as.Rhs) != len(as.Lhs) {
+					okAssign = false
+					continue
+				}
+				if id, ok := as.Rhs[i].(*ast.Ident); !ok || id.Name == "nil" {
+					okAssign = false
+				}
+			}
+			return true
+		})
+	}
+	if !okAssign || n == 0 {
+		return false
+	}
+	// the type the sender belongs to, and the methods every type has (to tell t.handleIncomingRequest of this
+	// transport from the method of the same name of another one)
+	owner := ""
+	methods := map[string]bool{}
+	for _, fn := range root.sortedFiles() {
+		for _, d := range root.files[fn].Decls {
+			if fd, ok := d.(*ast.FuncDecl); ok {
+				methods[funcName(fd)] = true
+				if fd.Name.Name == sender && fd.Recv != nil && strings.Contains(funcName(fd), ".") {
+					if owner != "" {
+						return false // two types with a sender of that name: not understood
+					}
+					owner = strings.SplitN(funcName(fd), ".", 2)[0]
+				}
+			}
+		}
+	}
+	if owner == "" {
+		return false
+	}
+	// (2) no `go` / detached closure on the chain of callers of the sender, up to the stream's own goroutine
+	targets := map[string]bool{sender: true} // method names of `owner`
+	for changed := true; changed; {
+		changed = false
+		for _, fn := range root.sortedFiles() {
+			for _, d := range root.files[fn].Decls {
+				fd, ok := d.(*ast.FuncDecl)
+				if !ok || fd.Body == nil {
+					continue
+				}
+				fdOwner, recv := "", cfRecvName(fd)
+				if k := strings.Index(funcName(fd), "."); k >= 0 {
+					fdOwner = funcName(fd)[:k]
+				}
+				// does this call reach a target method of `owner`?
+				hits := func(c *ast.CallExpr) bool {
+					sel, ok := c.Fun.(*ast.SelectorExpr)
+					if !ok || !targets[sel.Sel.Name] {
+						return false
+					}
+					if id, ok := sel.X.(*ast.Ident); ok && id.Name == recv && recv != "" {
+						return fdOwner == owner // a call on the function's own receiver: same type or not
+					}
+					// a call on some other expression: it is `owner`'s method unless the expression is known to be of a
+					// type that has its own method of that name and is not `owner` — not decidable syntactically: count it
+					return true
+				}
+				bad := false
+				var walk func(n ast.Node, detached bool)
+				walk = func(n ast.Node, detached bool) {
+					ast.Inspect(n, func(x ast.Node) bool {
+						switch y := x.(type) {
+						case *ast.GoStmt:
+							walk(y.Call, true)
+							return false
+						case *ast.FuncLit:
+							if !detached {
+								walk(y.Body, true) // may run later / elsewhere: conservative
+								return false
+							}
+						case *ast.CallExpr:
+							if hits(y) {
+								if detached {
+									bad = true
+								} else if fdOwner == owner && !targets[fd.Name.Name] {
+									targets[fd.Name.Name] = true
+									changed = true
+								} else if fdOwner != owner {
+									bad = true // reached from outside the transport: not the stream's reader
+								}
+							}
+						}
+						return true
+					})
+				}
+				walk(fd.Body, false)
+				if bad && !(fdOwner == owner && rpIsStreamRoot(root, fd, targets)) {
+					return false
+				}
+			}
+		}
+	}
+	return true
+}
+
+// rpIsStreamRoot: the only `go` in fd that reaches a target starts the stream's connect / read loop itself
+// (connectGetSSE in establishGetSSE, readSSE in start), i.e. the goroutine the whole chain runs on.
+func rpIsStreamRoot(root *pkgSrc, fd *ast.FuncDecl, targets map[string]bool) bool {
+	roots := map[string]map[string]bool{"establishGetSSE": {"connectGetSSE": true}, "start": {"readSSE": true}}
+	allowed := roots[fd.Name.Name]
+	if allowed == nil {
+		return false
+	}
+	ok := true
+	ast.Inspect(fd.Body, func(x ast.Node) bool {
+		g, isGo := x.(*ast.GoStmt)
+		if !isGo {
+			return true
+		}
+		ast.Inspect(g.Call, func(y ast.Node) bool {
+			if c, isCall := y.(*ast.CallExpr); isCall {
+				name := ""
+				switch f := c.Fun.(type) {
+				case *ast.SelectorExpr:
+					name = f.Sel.Name
+				case *ast.Ident:
+					name = f.Name
+				}
+				if targets[name] && !allowed[name] {
+					ok = false
+				}
+			}
+			return true
+		})
+		return false
+	})
+	return ok
+}
+
+// ---- repeated options (client.go): how a second WithHTTPHeaders / WithHTTPBeforeRequest / … combines with the first
+
+// rpOptionBody: the body of the func literal an option constructor returns, with the literal's parameter name.
+func rpOptionBody(root *pkgSrc, name string) (*ast.BlockStmt, string, []string) {
+	fd, _ := root.funcDecl(name)
+	if fd == nil || fd.Body == nil || len(fd.Body.List) != 1 {
+		return nil, "", nil
+	}
+	ret, ok := fd.Body.List[0].(*ast.ReturnStmt)
+	if !ok || len(ret.Results) != 1 {
+		return nil, "", nil
+	}
+	lit, ok := ret.Results[0].(*ast.FuncLit)
+	if !ok || len(lit.Type.Params.List) != 1 || len(lit.Type.Params.List[0].Names) != 1 {
+		return nil, "", nil
+	}
+	var ps []string
+	for _, f := range fd.Type.Params.List {
+		for _, n := range f.Names {
+			ps = append(ps, n.Name)
+		}
+	}
+	return lit.Body, lit.Type.Params.List[0].Names[0].Name, ps
+}
+
+// rpMergesInto: the block merges `src` per key into the map `dst`: every assignment to dst is either
+// `dst = make(http.Header)` or `dst[k] = v` inside `for k, v := range src`, and that loop is there, unconditionally.
+func rpMergesInto(root *pkgSrc, body *ast.BlockStmt, dst, src string) bool {
+	loop := false
+	for _, st := range body.List {
+		if rs, ok := st.(*ast.RangeStmt); ok && rs.Key != nil && rs.Value != nil && rpSquash(root.text(rs.X)) == src && len(rs.Body.List) == 1 {
+			k, v := rpSquash(root.text(rs.Key)), rpSquash(root.text(rs.Value))
+			if rpSquash(root.mwCodeText(rs.Body.List[0])) == dst+"["+k+"]="+v {
+				loop = true
+			}
+		}
+	}
+	if !loop {
+		return false
+	}
+	ok := true
+	ast.Inspect(body, func(x ast.Node) bool {
+		as, isAs := x.(*ast.AssignStmt)
+		if !isAs {
+			return true
+		}
+		for i, l := range as.Lhs {
+			ls := rpSquash(root.text(l))
+			if ls == dst {
+				if len(as.Rhs) != len(as.Lhs) || rpSquash(root.text(as.Rhs[i])) != "make(http.Header)" {
+					ok = false
+				}
+			}
+		}
+		return true
+	})
+	return ok
+}
+
+type rpOptFacts struct {
+	cfgMerges, optMerges, fromConfig bool
+	lastWins                         [][2]string
+}
+
+func rpOptionFacts(root *pkgSrc) rpOptFacts {
+	var f rpOptFacts
+	if body, c, ps := rpOptionBody(root, "WithHTTPHeaders"); body != nil && len(ps) == 1 {
+		f.cfgMerges = rpMergesInto(root, body, c+".transportConfig.httpHeaders", ps[0])
+		// … and the transport option is appended with the same headers
+		appended := strings.Count(rpSquash(root.mwCodeText(body)), c+".transportOptions=append("+c+".transportOptions,withTransportHTTPHeaders("+ps[0]+"))") == 1
+		if tb, t, tps := rpOptionBody(root, "withTransportHTTPHeaders"); appended && tb != nil && len(tps) == 1 {
+			f.optMerges = rpMergesInto(root, tb, t+".httpHeaders", tps[0])
+		}
+	}
+	// both transports start from the configuration's map; the legacy one's configuration is the options applied in order
+	str, _ := root.funcDecl("newStreamableHTTPClientTransport")
+	sse, _ := root.funcDecl("NewSSEClient")
+	ext, _ := root.funcDecl("extractTransportConfig")
+	nc, _ := root.funcDecl("NewClient")
+	if str != nil && sse != nil && ext != nil && nc != nil {
+		s1 := rpSquash(root.mwCodeText(str.Body))
+		s2 := rpSquash(root.mwCodeText(sse.Body))
+		s3 := rpSquash(root.mwCodeText(ext.Body))
+		s4 := rpSquash(root.mwCodeText(nc.Body))
+		f.fromConfig = strings.Count(s1, "httpHeaders:config.httpHeaders,") == 1 && strings.Contains(s1, "for_,option:=rangeoptions{option(transport)}") &&
+			strings.Count(s2, "config:=extractTransportConfig(options)") == 1 && strings.Count(s2, "httpHeaders:config.httpHeaders,") == 1 &&
+			strings.Count(s2, "config=") == 0 && strings.Count(s2, "httpHeaders") == 2 &&
+			strings.Contains(s3, "for_,option:=rangeoptions{option(tempClient)}returntempClient.transportConfig") &&
+			strings.Contains(s4, "for_,option:=rangeoptions{option(client)}") &&
+			strings.Count(s4, "newStreamableHTTPClientTransport(client.transportConfig,client.transportOptions...)") == 1
+	}
+	// options that are plain assignments (the last one wins)
+	for _, o := range [][3]string{
+		{"WithClientPath", "%s.transportConfig.path=%s", "%s.transportOptions=append(%s.transportOptions,withClientTransportPath(%s))"},
+		{"WithHTTPBeforeRequest", "%s.httpBeforeRequestFunc=%s", ""},
+		{"WithHTTPReqHandler", "%s.transportConfig.httpReqHandler=%s", "%s.transportOptions=append(%s.transportOptions,withTransportHTTPReqHandler(%s))"},
+	} {
+		verdict := "unknown"
+		if body, c, ps := rpOptionBody(root, o[0]); body != nil && len(ps) == 1 {
+			want := "{" + fmt.Sprintf(o[1], c, ps[0])
+			if o[2] != "" {
+				want += fmt.Sprintf(o[2], c, c, ps[0])
+			}
+			want += "}"
+			if got := rpSquash(root.mwCodeText(body)); got == want {
+				verdict = "assign"
+			} else {
+				verdict = "unknown: " + got
+				if len(verdict) > 90 {
+					verdict = verdict[:90]
+				}
+			}
+		}
+		f.lastWins = append(f.lastWins, [2]string{o[0], verdict})
+	}
+	return f
+}
+
+func rpStreamField(s, recv string) string {
+	if strings.Contains(s, recv+".getSSEConn.ctx") {
+		return "getSSEConn"
+	}
+	return "sseConn"
 }
